@@ -103,3 +103,34 @@ func checkForAllLoops(p *Prog, r *Report, prop string) {
 		}
 	}
 }
+
+// checkRoleFlagConfined: the role flag is an atomic, but every decision taken
+// on it must be part of the task that acts on it: it is read and written only
+// by functions that run inside the task loop or during construction (shared by
+// C05 and C10).
+func checkRoleFlagConfined(p *Prog, r *Report) {
+	ci := p.Contexts()
+	n := 0
+	for _, f := range p.AllFuncs {
+		if f.Body == nil {
+			continue
+		}
+		walkBody(f, func(x ast.Node) bool {
+			c, ok := x.(*ast.CallExpr)
+			if !ok {
+				return true
+			}
+			sel, ok := unparen(c.Fun).(*ast.SelectorExpr)
+			if !ok || !p.IsField(sel.X, "Agent.isControlling") {
+				return true
+			}
+			n++
+			outside := ci.Has(f, CtxAPI) || ci.Has(f, CtxGo)
+			r.Check(!outside, "role flag "+sel.Sel.Name+" in "+f.Name, p.Pos(c.Pos()), "inside the task loop / construction: "+strings.Join(ci.List(f), ","), "the role flag is accessed in "+f.Name+", which can run outside the task loop ("+strings.Join(ci.List(f), ",")+"): a role conflict handled between this test and the task that acts on it makes the agent act in the wrong role")
+			return true
+		})
+	}
+	if n == 0 {
+		r.Fail("role flag accesses", "", "no access to Agent.isControlling found (rule instance lost)")
+	}
+}
